@@ -1025,3 +1025,5 @@ def _had_parent(transitions, iteration):
             break
         has = has_parent
     return has
+
+INFO['rule'] += ' Round-5 additions: children dial the obfuscated port (obf_dial).'
